@@ -155,6 +155,8 @@ def gen_modules(rng, boxes, W, H):
 def near(rng, v):
     """A float value at / next to v."""
     v = float(v)
+    if v == 0.0:          # no denormals: ratio * area would underflow to 0 in binary64 (outside the exact stream)
+        return rng.choice([0.0, 2.0 ** -60, -2.0 ** -60, 2.0 ** -30, -2.0 ** -30, 2.0 ** -10])
     return rng.choice([v, math.nextafter(v, 2.0), math.nextafter(v, -1.0), v + 2.0 ** -30, v - 2.0 ** -30,
                        v + 2.0 ** -10, v - 2.0 ** -10])
 
@@ -200,7 +202,7 @@ def gen_extract(rng):
                     left -= q
                     v = float(q)
                     if rng.random() < 0.15:
-                        v = float(rng.choice([one_minus_t, math.nextafter(one_minus_t, 2.0)]))
+                        v = float(rng.choice([one_minus_t, math.nextafter(one_minus_t, 2.0) if one_minus_t > 0 else 2.0 ** -60]))
                 vals[m["name"]] = float(v)
             if style == "sparse" and rng.random() < 0.5:
                 vals = {k: 0.0 for k in vals}
